@@ -196,4 +196,84 @@ def gapNonneg : Gap → Bool
   | .byte _ :: g => gapNonneg g
   | .tick d :: g => decide (0 ≤ d) && gapNonneg g
 
+/-! ## line protocol
+
+`wire.expect buf=<n> t0=<clock> items=<item>,<item>,…` answers legality, the bytes on the cable, the
+`EachMessage` calls that `wireToks` stands for and `expectedFrom t0`.
+item syntax: `rF8` real-time byte, `t5` tick, `c90x:<body>` / `c90e:<body>` channel message with / without
+its status byte, `sF2:<body>` system common, `x:<body>:<gap>` sysex; body = `<gap>.<data>/<gap>.<data>…`,
+gap = `F8+t3+…` (may be empty). -/
+
+def parseGapTok (s : String) : Option Tok :=
+  match s.toList with
+  | 't' :: r => (intOfString (String.ofList r)).map Tok.tick
+  | cs => match unhexChars cs with
+    | some [b] => some (Tok.byte b)
+    | _ => none
+
+def parseGap (s : String) : Option Gap :=
+  if s = "" then some [] else (s.splitOn "+").mapM parseGapTok
+
+def parseBody (s : String) : Option Body :=
+  if s = "" then some [] else (s.splitOn "/").mapM fun e =>
+    match e.splitOn "." with
+    | [g, d] =>
+      match parseGap g, unhex d with
+      | some g, some [b] => some (g, b)
+      | _, _ => none
+    | _ => none
+
+def parseItem (s : String) : Option Item :=
+  match s.splitOn ":" with
+  | [h] =>
+    match h.toList with
+    | 'r' :: r => match unhexChars r with
+      | some [b] => some (Item.rt b)
+      | _ => none
+    | 't' :: r => (intOfString (String.ofList r)).map Item.tick
+    | _ => none
+  | [h, b] =>
+    match h.toList, parseBody b with
+    | ['c', x, y, f], some body =>
+      match unhexChars [x, y] with
+      | some [st] => if f = 'e' then some (Item.chan st true body) else if f = 'x' then some (Item.chan st false body) else none
+      | _ => none
+    | ['s', x, y], some body =>
+      match unhexChars [x, y] with
+      | some [st] => some (Item.sysc st body)
+      | _ => none
+    | _, _ => none
+  | [h, b, l] =>
+    match h, parseBody b, parseGap l with
+    | "x", some body, some last => some (Item.sysex body last)
+    | _, _, _ => none
+  | _ => none
+
+/-- the `EachMessage(bytes, Δ)` calls a token stream stands for (bytes before the first tick: `Δ = 0`) -/
+def chunksOf (toks : List Tok) : List (Int × Bytes) :=
+  let rec go : List Tok → (Int × Bytes) → List (Int × Bytes) → List (Int × Bytes)
+    | [], cur, acc => (cur :: acc).reverse
+    | .byte b :: r, cur, acc => go r (cur.1, cur.2 ++ [b]) acc
+    | .tick d :: r, cur, acc => go r (d, []) (cur :: acc)
+  go toks (0, []) []
+
+def showChunks (l : List (Int × Bytes)) : String :=
+  if l.isEmpty then "-" else joinWith "," (l.map fun c => s!"{c.1}:{hex c.2}")
+
+--@driver wire. LiveWire.handle
+def handle (op : String) (args : List String) : String :=
+  match op with
+  | "wire.expect" =>
+    match natField "buf" args, (field "t0" args).bind intOfString, field "items" args with
+    | some buf, some t0, some is =>
+      match (if is = "-" then some [] else (is.splitOn ",").mapM parseItem) with
+      | some items =>
+        let c : Cfg := ⟨true, buf, true, true⟩
+        let b (x : Bool) : Nat := if x then 1 else 0
+        s!"wf={b (wfFrom c.bufSize 0 items)} explicit={b (startsExplicit items)} wire={hex (wire items)} " ++
+        s!"chunks={showChunks (chunksOf (wireToks items))} exp={showFrames (expectedFrom t0 items)}"
+      | none => "bad-op"
+    | _, _, _ => "bad-op"
+  | _ => "bad-op"
+
 end Midi.LiveWire
